@@ -37,6 +37,13 @@ impl Recorder for Dbl {
     }
     fn register_counter(&self, k: &Key, m: &Metadata<'_>) -> Counter {
         self.put(format!("register_counter|{}|{}", keystr(k), metastr(m)));
+        match k.name() {
+            // a self-instrumenting recorder: emits through the macros from inside one of its own methods
+            "probe_reenter" => metrics::counter!("probe_nested").increment(1),
+            // a recorder method that panics (the caller catches it)
+            "probe_panic" => panic!("recorder method panics"),
+            _ => {}
+        }
         Counter::noop()
     }
     fn register_gauge(&self, k: &Key, m: &Metadata<'_>) -> Gauge {
@@ -179,6 +186,11 @@ fn probe(log: &Log) -> Vec<String> {
     metrics::gauge!("probe_g").set(1.0);
     metrics::histogram!("probe_h").record(1.0);
     metrics::describe_counter!("probe_c", Unit::Bytes, "d");
+    // re-entrant emission (2 entries: the emission and the one nested inside the recorder), a recorder method that
+    // panics (1 entry, logged before the panic), and an emission after the caught panic (1 entry)
+    metrics::counter!("probe_reenter").increment(1);
+    let _ = std::panic::catch_unwind(|| metrics::counter!("probe_panic").increment(1));
+    metrics::counter!("probe_after_panic").increment(1);
     log.lock().unwrap().clone()
 }
 
@@ -204,12 +216,12 @@ fn check_probe(m: &Model, got: &[String], global: Option<usize>, step: usize, ou
         return; // routing after a leaked guard is not specified beyond the safety clause
     }
     let want = m.current().or(global);
-    let want_n = if want.is_some() { 4 } else { 0 };
+    let want_n = if want.is_some() { 8 } else { 0 };
     let ok = who.len() == want_n && who.iter().all(|w| Some(*w) == want);
     if !ok {
         let sig = if m.non_lifo { "non-lifo-guard-drop" } else { "emission-reached-wrong-recorder" };
         let got_desc: Vec<String> = who.iter().map(|w| describe(Some(*w))).collect();
-        out.bad = Some((sig.into(), format!("4 emissions should each reach {} exactly once; received by {:?}", describe(want), got_desc), step));
+        out.bad = Some((sig.into(), format!("the 8 probe emissions (incl. one nested inside a recorder method, one whose recorder method panics, one after that panic) should each reach {} exactly once; received by {:?}", describe(want), got_desc), step));
     }
 }
 
@@ -525,7 +537,7 @@ fn threads_part(res: &mut PartResult) {
                                         let got = probe(log);
                                         bar.wait();
                                         let want = m.current();
-                                        let ok = got.len() == if want.is_some() { 4 } else { 0 } && got.iter().all(|l| l.starts_with(&format!("{}|", tid * 10)));
+                                        let ok = got.len() == if want.is_some() { 8 } else { 0 } && got.iter().all(|l| l.starts_with(&format!("{}|", tid * 10)));
                                         if !ok {
                                             fail.store(true, Ordering::SeqCst);
                                         }
@@ -547,7 +559,7 @@ fn threads_part(res: &mut PartResult) {
                             let got = probe(log);
                             bar.wait();
                             let want = m.current();
-                            let ok = got.len() == if want.is_some() { 4 } else { 0 } && got.iter().all(|l| l.starts_with(&format!("{}|", tid * 10)));
+                            let ok = got.len() == if want.is_some() { 8 } else { 0 } && got.iter().all(|l| l.starts_with(&format!("{}|", tid * 10)));
                             if !ok && !m.non_lifo {
                                 fail.store(true, Ordering::SeqCst);
                             }
@@ -562,7 +574,7 @@ fn threads_part(res: &mut PartResult) {
                         let got = probe(&log);
                         bar.wait();
                         let want = m.current();
-                        if got.len() != if want.is_some() { 4 } else { 0 } && !m.non_lifo {
+                        if got.len() != if want.is_some() { 8 } else { 0 } && !m.non_lifo {
                             fail.store(true, Ordering::SeqCst);
                         }
                     }
